@@ -112,7 +112,7 @@ var palette = map[string][]pchar{
 	// 3-byte runes that are neither letters nor numbers: em dash, line separator, euro, arrow, ideographic space, U+FFFD itself,
 	// circled A (a symbol with a case pair), ideographic comma
 	"ns": pairs("\u2014", "\u2014", "\u2028", "\u2028", "\u20ac", "\u20ac", "\u2192", "\u2192", "\u3000", "\u3000", "\ufffd", "\ufffd",
-		"\u24b6", "\u24d0", "\u3001", "\u3001"),
+		"\u24b6", "\u24d0", "\u3001", "\u3001", "\ufeff", "\ufeff", "\u2029", "\u2029", "\u200b", "\u200b"),
 	// bytes that are not UTF-8 and cannot combine with a neighbour into a valid sequence (no usable lead bytes)
 	// (0x80 and 0xbf are lone continuation bytes, the others are bytes that can never start a valid sequence)
 	"iv": same("\xff", "\xc0", "\x80", "\xfe", "\xbf", "\xc1", "\xf8"),
@@ -135,6 +135,9 @@ var palette = map[string][]pchar{
 	"z0": same("\x00"),
 	"cc": same("\x01", "\x02", "\x03", "\x04", "\x05", "\x06", "\a", "\b", "\x0e", "\x0f", "\x10", "\x11", "\x12", "\x13", "\x14",
 		"\x15", "\x16", "\x17", "\x18", "\x19", "\x1a", "\x1b", "\x1c", "\x1d", "\x1e", "\x1f", "\x7f"),
+	// 2-byte runes that are neither letters nor numbers: no-break space, NEL (C1 control, white space), soft hyphen, multiplication
+	// and division sign, section sign, inverted question mark, pilcrow, Arabic comma
+	"s2": same("\u00a0", "\u0085", "\u00ad", "\u00d7", "\u00f7", "\u00a7", "\u00bf", "\u00b6", "\u060c"),
 	// U+E000, the rune the SeqQL lexer writes for an unescaped '*'
 	"pu": same("\ue000"),
 }
@@ -240,7 +243,7 @@ func checkPalette(t *table) error {
 			if w == 1 && p.raw[0] >= 0x80 {
 				return fmt.Errorf("class %s: %q not ASCII", cls, p.raw)
 			}
-			if in(t.Ctl, cls) != unicode.IsControl(r) {
+			if in(t.Ctl, cls) != (r < utf8.RuneSelf && unicode.IsControl(r)) {
 				return fmt.Errorf("class %s: %q control=%v", cls, p.raw, unicode.IsControl(r))
 			}
 			if cp, ok := t.CP[cls]; ok && rune(cp) != r {
